@@ -58,13 +58,13 @@ def run(chk):
             raise Violation("total", f"total - sum(terms) = {canon(t) - canon(s)}", "0")
         return msg + "; total == sum(terms)"
 
-    wkinds = ['scalar', 'dict', 'float']
+    wkinds = ['scalar', 'dict', 'float', 'dict_rev']
     for eq_type, names in all_terms.items():
         fields = ('dyn_loss', 'initial_condition', 'observations') if eq_type == 'ODE' else \
             ('dyn_loss', 'norm_loss', 'boundary_loss', 'observations', 'initial_condition')
         wspecs = [{f: k for f in fields} for k in wkinds]
         # mixed specifications, and a missing (None) one for every field in turn
-        wspecs.append({f: wkinds[i % 3] for i, f in enumerate(fields)})
+        wspecs.append({f: wkinds[i % 4] for i, f in enumerate(fields)})
         for f in fields:
             if f == 'dyn_loss' and not thorough:
                 continue
